@@ -794,3 +794,41 @@ def digest_sources(ctx, prog):
             bad.append("%s <- %s" % (w.field, c[:120]))
     ctx.ob(RS, "finalize: block hash 1 is assembled from context L, block hash 2 from context L+1 (or the two single-piece sources)", not bad and n >= 6,
            "; ".join(bad) or "%d array writes checked" % n, f.loc())
+
+
+def pointer_cursor(ctx, prog):
+    """`unsafe` engine: the context cursor of the two per-byte loops is (re)started at the cached range start before each loop and advanced by
+    exactly one context per iteration (directly, or through the look-ahead `next` pointer); the correspondence rules treat these pointer
+    assignments as plumbing, so their presence is checked here: 2 starts and 2 advances per update form, nothing else assigned to the cursor."""
+    RS = "SA-ENGINEMAP"
+    n = 0
+    for nm in ("Generator::update", "Generator::update_by_iter", "Generator::update_by_byte"):
+        f = prog.fn(nm)
+        sy = Sym(f)
+        cur = None
+        for l, ds in f.defs.items():
+            if "*mut internals::generate::BlockHashContext" not in f.locals[l]["ty"] or len(ds) < 3:
+                continue
+            me = ("local", l, f.locals[l]["name"])
+            kinds = []
+            for (b, _i, k, x) in ds:
+                v = strip(sy.rvalue(x)) if k == "rv" else strip(sy.call(x, b))
+                if v[0] == "local" and "*mut internals::generate::BlockHashContext" in f.locals[v[1]]["ty"] and v[1] != l:
+                    kinds.append(("start", v[1]))
+                elif v[0] == "call" and v[1].endswith("mut_ptr::<impl *mut T>::add") and strip(v[2][0]) == me and const_value(strip(v[2][1])) == 1:
+                    kinds.append(("advance", 1))
+                else:
+                    kinds.append(("other", canon(v)[:50]))
+            cur = (l, kinds)
+        if cur is None:
+            continue   # not the pointer engine (safe configurations)
+        n += 1
+        l, kinds = cur
+        starts = [k for k in kinds if k[0] == "start"]
+        adv = [k for k in kinds if k[0] == "advance"]
+        other = [k for k in kinds if k[0] == "other"]
+        ok = len(starts) == 2 and len(set(starts)) == 1 and len(adv) == 2 and not other
+        ctx.ob(RS, "%s: the context cursor is started at the cached range start before each of the two loops and advanced by one context per iteration" % f.short, ok,
+               "cursor definitions: %s" % kinds, f.loc())
+    if n:
+        ctx.floor(RS, n, 3, "update forms with a pointer cursor")
